@@ -270,7 +270,7 @@ SKIP_FRAMES = ("raise", "abort", "__pthread_kill_implementation", "__pthread_kil
                "pthread_kill", "__assert_fail", "_do_assert", "bug", "bugBadCase", "__GI___pthread_kill", "osExit", "exit")
 
 
-def crash_site(build, inp, timeout=60, hang_after=None):
+def crash_site(build, inp, timeout=60, hang_after=None, stack_kb=None):
     """Where the compiler faults on this input: "file.c:function" of the innermost frame of the compiler's own code
     under gdb (signals stopped before the compiler's handler sees them).  With hang_after=s the process is
     interrupted after s seconds and the outermost frame below the driver (axlcomp.c), i.e. the entry point of
@@ -288,6 +288,8 @@ def crash_site(build, inp, timeout=60, hang_after=None):
            ["-F" + k for k in inp.kinds] + inp.args + ["t.as"]
     if hang_after:
         cmd = ["timeout", "-s", "INT", str(hang_after)] + cmd
+    if stack_kb:        # the stack bound of the class, so that an unbounded recursion ends as soon as it did in the run
+        cmd = ["sh", "-c", "ulimit -s %d; exec \"$@\"" % stack_kb, "sh"] + cmd
     try:
         p = subprocess.run(cmd, cwd=d, stdout=subprocess.PIPE, stderr=subprocess.STDOUT, timeout=timeout,
                            stdin=subprocess.DEVNULL)
@@ -305,6 +307,14 @@ def crash_site(build, inp, timeout=60, hang_after=None):
         # a sample of a loop: the innermost frame varies from sample to sample, the entry point of the phase does not
         inner = [f for f in frames if f.split(":")[0] not in ("axlcomp.c", "main.c")]
         return inner[-1] if inner else ""
+    if len(frames) >= 30:
+        # 40 frames deep and one function many times among them: the stack is exhausted by a recursion; where exactly it
+        # ends is chance, the function that recurs is not
+        import collections
+        cnt = collections.Counter(frames)
+        top = sorted(cnt.items(), key=lambda kv: (-kv[1], kv[0]))[0]
+        if top[1] >= 6:
+            return "recursion:" + top[0]
     return frames[0] if frames else ""
 
 
